@@ -553,3 +553,21 @@ Fixpoint remove_dollar_us (s : list N) : list N :=
   end.
 Definition python_name (method : list N) : list N :=
   remove_dollar_us (replace_slash (to_snake_case method)).
+
+(* ---------- pygls/protocol/lsp_meta.py: call_user_feature ---------- *)
+(* A method pygls handles itself (lsp_initialize, lsp_text_document__did_open, ...): the built-in
+   runs first, then the user's feature for the same method is called with THE SAME arguments.
+   The built-ins read params and update the protocol's own state (workspace, trace, shutdown
+   flag ...): in the model they are functions of params that return a new protocol state and
+   cannot write to params. *)
+Section BuiltIn.
+  Variable obj bst : Type.
+  Variable builtin : list N -> obj -> bst -> bst.
+  Inductive call := CBuiltin (m : list N) (p : obj) | CUser (m : list N) (p : obj).
+  Definition call_user_feature (has_builtin has_user : bool) (m : list N) (p : obj) (s : bst)
+    : bst * list call :=
+    let user := if has_user then [CUser m p] else [] in
+    if has_builtin then (builtin m p s, CBuiltin m p :: user) else (s, user).
+End BuiltIn.
+Arguments CBuiltin {obj} m p.
+Arguments CUser {obj} m p.
